@@ -199,6 +199,9 @@ func bridgeHandle(c map[string]J) map[string]J {
 	if c["kind"] == "scanfloat" {
 		return bridgeScanFloat(c)
 	}
+	if c["kind"] == "scanstr" {
+		return bridgeScanStr(c)
+	}
 	dq := c["dq"].(string)
 	v := goValue(c["val"].([]J))
 	input := fmt.Sprintf("double_quotes=%s value=%#v", dq, v)
@@ -361,6 +364,66 @@ func bridgeScanFloat(c map[string]J) map[string]J {
 			if r := check("[]float32 element", nil, float64(l.L[0])); r != nil {
 				return r
 			}
+		}
+	}
+	return map[string]J{"status": "ok", "input": input}
+}
+
+// bridgeScanStr: a list of integers (written as a list, and built at run time) scanned into string destinations: the text whose
+// code points they are, or an error.
+func bridgeScanStr(c map[string]J) map[string]J {
+	var parts []string
+	var want []rune
+	for _, x := range c["codes"].([]J) {
+		v := bigOf(x)
+		parts = append(parts, v.String())
+		if v.IsInt64() {
+			want = append(want, rune(v.Int64()))
+		}
+	}
+	valid := c["valid"].(bool)
+	list := "[" + strings.Join(parts, ",") + "]"
+	input := fmt.Sprintf("double_quotes=%s Scan of the list %s into a string", c["dq"], list)
+	ip := prolog.New(nil, nil)
+	if sol := ip.QuerySolution(fmt.Sprintf("set_prolog_flag(double_quotes, %s).", c["dq"])); sol.Err() != nil {
+		return map[string]J{"status": "badcase", "detail": sol.Err().Error()}
+	}
+	for _, q := range []string{fmt.Sprintf("X = %s, L = [X].", list), fmt.Sprintf("append(%s, [], X), L = [X].", list)} {
+		sols, err := ip.Query(q)
+		if err != nil {
+			return map[string]J{"status": "discard", "why": "an element is not a 64-bit integer", "input": input}
+		}
+		if !sols.Next() {
+			sols.Close()
+			return map[string]J{"status": "badcase", "detail": fmt.Sprint(sols.Err())}
+		}
+		check := func(how string, serr error, got string) map[string]J {
+			if serr != nil {
+				return nil
+			}
+			if !valid || got != string(want) {
+				return map[string]J{"status": "mismatch", "input": input + " (" + how + ", ?- " + q + ")", "what": "Scan stored a text that is not the answer (a list with an element that is no Unicode scalar value must be an error)",
+					"expected": fmt.Sprintf("%q or an error", string(want)), "observed": fmt.Sprintf("%q", got)}
+			}
+			return nil
+		}
+		var d struct{ X string }
+		r := check("struct field string", sols.Scan(&d), d.X)
+		if r == nil {
+			var l struct{ L []string }
+			if err := sols.Scan(&l); err == nil && len(l.L) == 1 {
+				r = check("[]string element", nil, l.L[0])
+			}
+		}
+		if r == nil {
+			m := map[string]string{}
+			if err := sols.Scan(m); err == nil {
+				r = check("map[string]string value", nil, m["X"])
+			}
+		}
+		sols.Close()
+		if r != nil {
+			return r
 		}
 	}
 	return map[string]J{"status": "ok", "input": input}
